@@ -36,9 +36,19 @@ class time_limit(object):
 
 
 def reset_state():
-    """Drops per-compilation global state the compiler keeps (prelude stays)."""
-    for k in [k for k in glue._cached_modules if k[1] != ""]:
-        del glue._cached_modules[k]
+    """Drops per-compilation global state the compiler keeps (the prelude's parse stays,
+    for speed).  Works whatever the cache is keyed by: (text, name) pairs or plain names."""
+    def is_prelude(k):
+        return k == "" or (isinstance(k, tuple) and len(k) > 1 and k[1] == "")
+
+    try:
+        for k in [k for k in glue._cached_modules if not is_prelude(k)]:
+            del glue._cached_modules[k]
+    except Exception:
+        try:
+            glue._cached_modules.clear()
+        except Exception:
+            pass
 
 
 def exc_signature(exc_info=None):
@@ -85,10 +95,13 @@ def reader_for(files, read_log=None):
     return reader
 
 
-def compile_files(files, main="m.emb", stop_before=None, gen_header=True, limit_s=None, enum_traits=True):
-    """Runs front end (+ back end) in-process; never raises for compiler faults."""
+def compile_files(files, main="m.emb", stop_before=None, gen_header=True, limit_s=None, enum_traits=True, reset=True):
+    """Runs front end (+ back end) in-process; never raises for compiler faults.
+    reset=False leaves the compiler's process-wide state (module cache, counters) as a real
+    long-running process would have it."""
     r = Result()
-    reset_state()
+    if reset:
+        reset_state()
     try:
         if limit_s:
             with time_limit(limit_s):
